@@ -78,7 +78,8 @@ def _jsonp_table(k, k2, ii, binary):
     return ''
 
 
-ACCEPT = (None, 'gzip', 'deflate', 'gzip, deflate', 'deflate,gzip', 'br, gzip;q=0.5', 'identity', ' gzip ', 'br', '*', '')
+ACCEPT = (None, 'gzip', 'deflate', 'gzip, deflate', 'deflate,gzip', 'br, gzip;q=0.5', 'identity', ' gzip ', 'br', '*', '', 'GZIP',
+          'Gzip, Deflate')
 
 
 class _Zlib:
@@ -112,10 +113,14 @@ class _Gzip:
 def _offered(accept, coding):
     if accept is None:
         return False
-    return any(e.split(';')[0].strip() == coding for e in accept.split(','))
+    # (content-coding names are case-insensitive)
+    return any(e.split(';')[0].strip().lower() == coding.lower() for e in accept.split(','))
 
 
 def _check_response(sut, r, accept, enabled, threshold, plain, what, jsonp_idx=None):
+    if r.done and r.exc is not None:
+        return fail(PROP, 'RESPONSE', '%s (Accept-Encoding %r): %s escaped the request handler: %s' % (
+            what, accept, type(r.exc).__name__, r.exc), flavour=sut.flavour, response=what)
     hs = sut.headers(r)
     ces = [v for k, v in hs if k.lower() == 'content-encoding']
     body = sut.body(r)
@@ -275,6 +280,8 @@ def _real_codec_polls(fl, ai, i0, i1, i2, jsonp):
             r = sut.get(sid, {'Accept-Encoding': acc} if acc is not None else None, extra='&j=3' if jsonp else '')
             sut.settle()
             st = dict(flavour=sut.flavour, nth_poll=n, accept=repr(acc))
+            if r.done and r.exc is not None:
+                return fail(PROP, 'RESPONSE', 'poll #%d: %s escaped the request handler: %s' % (n, type(r.exc).__name__, r.exc), **st)
             if not r.done or sut.status(r) != 200:
                 return fail(PROP, 'RESPONSE', 'poll #%d: done=%s' % (n, r.done), **st)
             ces = [v for k, v in sut.headers(r) if k.lower() == 'content-encoding']
@@ -314,10 +321,69 @@ def _real_codec_polls(fl, ai, i0, i1, i2, jsonp):
         sut.close()
 
 
+def _empty_release(fl, enabled, ai, jsonp, how):
+    """A pending poll that is released carrying NO packet at all (the client POSTs CLOSE / the application disconnects the
+    session while the poll waits): what the client receives, after undoing encoding and JSONP wrapping, is the empty
+    payload - in particular a JSONP body is still one complete call statement."""
+    saved = (base_server.zlib, base_server.gzip)
+    base_server.zlib, base_server.gzip = _Zlib, _Gzip
+    sut = mk(fl, async_handlers=False, http_compression=enabled, compression_threshold=0)
+    try:
+        acc = ACCEPT[ai]
+        sut.open('polling')
+        sut.settle()
+        sid = sut.sids()[0]
+        g = sut.get(sid, {'Accept-Encoding': acc} if acc is not None else None, extra='&j=5' if jsonp else '')
+        sut.settle()
+        if g.done:
+            return ''
+        if how == 0:
+            sut.post(sid, '1')
+        else:
+            sut.app_disconnect(sid)
+        sut.settle()
+        sut.run(until=sut.k.now + 1)
+        if not g.done or sut.status(g) != 200:
+            return ''           # not released, or answered with an error: other properties (C07 / C15) decide that
+        pk = None
+        try:
+            body = sut.body(g)
+            ces = [v for k_, v in sut.headers(g) if k_.lower() == 'content-encoding']
+            if ces:
+                tag = (b'GZIP(' if ces[0] == 'gzip' else b'DEFLATE(')
+                body = body[len(tag):-1] if body.startswith(tag) else body
+            text = body.decode('utf-8')
+            if jsonp:
+                idx, text = parse_jsonp(text)
+        except JsError as ex:
+            return fail(PROP, 'JSONP-STATEMENT', 'poll released with no packet: body %r: %s' % (sut.body(g)[:60], ex), flavour=sut.flavour)
+        from vf.oracles.wire import split_payload
+        try:
+            pk = split_payload(text) if text else []
+        except Exception as ex:  # noqa
+            return fail(PROP, 'LOSSLESS', 'poll released with no packet to deliver: the client receives %r, which is not a payload (%s)' % (
+                text[:40], ex), flavour=sut.flavour)
+        if any(t not in (1, 6) for t, d in pk):
+            return fail(PROP, 'LOSSLESS', 'poll released by the end of the session: the client receives %r (packets %r)' % (text[:40], pk), flavour=sut.flavour)
+        return ''
+    finally:
+        sut.close()
+        base_server.zlib, base_server.gzip = saved
+
+
+@cond(quick=dict(timeout=120), thorough=dict(timeout=300))
+def poll_released_without_packets(fl: int, enabled: bool, ai: int, jsonp: bool, how: int) -> str:
+    """
+    pre: 0 <= fl <= 1 and 0 <= ai < len(ACCEPT) and 0 <= how <= 1
+    post: _ == ''
+    """
+    return verdict(untraced(_empty_release, fl, enabled, ai, jsonp, how))
+
+
 @cond(quick=dict(timeout=170, parts=dict(FL=[0, 1])), thorough=dict(timeout=600, parts=dict(FL=[0, 1])))
 def real_codec_polls(fl: int, ai: int, i0: int, i1: int, i2: int, jsonp: bool) -> str:
     """
-    pre: fl == P.FL and 0 <= ai <= 4 and 0 <= i0 < len(SIZES) and 0 <= i1 < len(SIZES) and 0 <= i2 < len(SIZES)
+    pre: fl == P.FL and (0 <= ai <= 4 or 11 <= ai <= 12) and 0 <= i0 < len(SIZES) and 0 <= i1 < len(SIZES) and 0 <= i2 < len(SIZES)
     post: _ == ''
     """
     return verdict(untraced(_real_codec_polls, fl, ai, i0, i1, i2, jsonp))
